@@ -87,22 +87,24 @@ def ipv6Loop : Nat → Bytes → List UInt8 → Option Nat → Option (Bytes × 
               else if ip.length < 16 then ipv6Loop fuel s2 ip (some ip.length) else some (s2, ip, some ip.length)
             else if ip.length < 16 then ipv6Loop fuel (c2 :: s2) ip ell else some (c2 :: s2, ip, ell)
 
+/-- the end of netip.parseIPv6: everything must be consumed; a short address needs an ellipsis, which is expanded;
+a full one must not have one -/
+def finishIPv6 (res : Bytes × List UInt8 × Option Nat) : Option (List UInt8) :=
+  let (rest, ip, ell) := res
+  if !rest.isEmpty then none                               -- trailing garbage
+  else if ip.length < 16 then
+    match ell with
+    | none => none                                         -- too short
+    | some e => some (ip.take e ++ List.replicate (16 - ip.length) 0 ++ ip.drop e)
+  else if ell.isSome then none                             -- :: must expand to at least one field
+  else some ip
+
 /-- netip.parseIPv6 for strings without '%' -/
 def parseIPv6 (s0 : Bytes) : Option (List UInt8) :=
   let lead := hasPrefix s0 b!"::"
   let s := if lead then s0.drop 2 else s0
   if lead && s.isEmpty then some (List.replicate 16 0)
-  else
-    match ipv6Loop 9 s [] (if lead then some 0 else none) with
-    | none => none
-    | some (rest, ip, ell) =>
-      if !rest.isEmpty then none                             -- trailing garbage
-      else if ip.length < 16 then
-        match ell with
-        | none => none                                       -- too short
-        | some e => some (ip.take e ++ List.replicate (16 - ip.length) 0 ++ ip.drop e)
-      else if ell.isSome then none                           -- :: must expand to at least one field
-      else some ip
+  else (ipv6Loop 9 s [] (if lead then some 0 else none)).bind finishIPv6
 
 def v4in6Prefix : List UInt8 := [0, 0, 0, 0, 0, 0, 0, 0, 0, 0, 255, 255]
 
@@ -113,8 +115,7 @@ def parseIP (s : Bytes) : Option (List UInt8) :=
   else match s.find? (fun c => c == 46 || c == 58) with
     | none => none
     | some c =>
-      -- the final length test stands for Go's result type [16]byte; it never fails (stream c15.host)
-      (if c == 46 then (parseIPv4 s).map (v4in6Prefix ++ ·) else parseIPv6 s).filter (·.length == 16)
+      if c == 46 then (parseIPv4 s).map (v4in6Prefix ++ ·) else parseIPv6 s
 
 /-- net.IP.To4 on a 16-byte address -/
 def to4 (ip : List UInt8) : Option (List UInt8) :=
